@@ -584,6 +584,27 @@ func checkC17(ck *Check) {
 	ck.cacheTypestate("C17.R6")
 	// R7 the acquired ids reach the attach calls as they were acquired (decided as C18.R7)
 	ck.idListIntegrity("C17.R7")
+	// R8 every acquired instance is attached: once instances came back, the only way on is the
+	// attach step (decided as C18.R3)
+	if a := ck.A; a.AwsOneShot != nil && a.AwsAttach != nil {
+		os := a.AwsOneShot
+		var fleet *ssa.Call
+		for _, w := range a.W {
+			if w.Class == "W-EC2-FLEET" && w.Fn == os {
+				fleet, _ = w.Call.(*ssa.Call)
+			}
+		}
+		// the attach step's entry as the strategy sees it: the step itself or a driver around it
+		att := callsIn(os, func(ci ssa.CallInstruction) bool {
+			g := ci.Common().StaticCallee()
+			return g != nil && ck.P.inRepo(g) && (g == a.AwsAttach || ck.P.reachCut([]*ssa.Function{g}, nil)[a.AwsAttach])
+		})
+		if fleet == nil || len(att) != 1 {
+			ck.fail("C17.R8", funcID(os)+"/shape", "", funcID(os), "one CreateFleet and one attach call", "", "")
+		} else {
+			ck.nothingDropped("C17.R8", os, ck.P.NewCtx(os), fleet, att[0])
+		}
+	}
 }
 
 func isAwsHelper(t *Term, name string) bool {
@@ -649,30 +670,37 @@ func (ck *Check) fleetRequest(rule string) {
 		at    ssa.Instruction
 	}
 	cases := map[string][]optCase{}
-	for _, r := range *lit.Referrers() {
-		if fa, ok := r.(*ssa.FieldAddr); ok {
-			name := fieldOfAddr(fa).Name()
-			if name == "OnDemandOptions" || name == "SpotOptions" {
-				for _, rr := range *fa.Referrers() {
-					st, ok := rr.(*ssa.Store)
-					if !ok {
-						continue
-					}
-					for _, vc := range ck.valueCases(ctx, FTrue, st.Val, 0) {
-						if vc.term.Kind == "const" && vc.term.Name == "nil" {
-							continue
-						}
-						al, _ := vc.term.Val.(*ssa.Alloc)
-						var flds map[string]*Term
-						if al != nil {
-							flds = ck.literalFields(ctx, al)
-						}
-						cases[name] = append(cases[name], optCase{guard: And(vc.guard, ctx.PC(st)), flds: flds, at: st})
-					}
-				}
-			}
+	litT := ctx.Term(lit)
+	// stores into the two option fields of the literal, in the function or in a helper it hands the
+	// literal to (parameters bound, the call's path condition conjoined)
+	ck.bodyInstrsPC(fn, func(c *Ctx, _ *ssa.Function, in ssa.Instruction, prefix *Formula) {
+		st, ok := in.(*ssa.Store)
+		if !ok {
+			return
 		}
-	}
+		fa, ok := st.Addr.(*ssa.FieldAddr)
+		if !ok || !strings.HasSuffix(typeName(fa.X.Type()), "ec2.CreateFleetInput") {
+			return
+		}
+		name := fieldOfAddr(fa).Name()
+		if name != "OnDemandOptions" && name != "SpotOptions" {
+			return
+		}
+		if c.Term(fa.X).Key() != litT.Key() {
+			return
+		}
+		for _, vc := range ck.valueCases(c, FTrue, st.Val, 0) {
+			if vc.term.Kind == "const" && vc.term.Name == "nil" {
+				continue
+			}
+			al, _ := vc.term.Val.(*ssa.Alloc)
+			var flds map[string]*Term
+			if al != nil {
+				flds = ck.literalFields(c, al)
+			}
+			cases[name] = append(cases[name], optCase{guard: And(prefix, And(vc.guard, c.PC(st))), flds: flds, at: st})
+		}
+	})
 	od, sp := cases["OnDemandOptions"], cases["SpotOptions"]
 	if len(od) == 0 || len(sp) == 0 || lifecycle == nil {
 		ck.fail(rule, "fleet/options", pos, funcID(fn), "OnDemandOptions and SpotOptions blocks are set according to the lifecycle", "missing", "")
@@ -1175,6 +1203,63 @@ func checkC18(ck *Check) {
 
 }
 
+// nothingDropped (C18.R3 / C17.R8): after CreateFleet the strategy returns without attaching only
+// if the call failed or returned no instances.
+func (ck *Check) nothingDropped(rule string, os *ssa.Function, octx *Ctx, fleet *ssa.Call, att ssa.CallInstruction) {
+	ft := octx.Term(fleet)
+	fleetOut := &Term{Kind: "extract", Name: "0", Args: []*Term{ft}}
+	for _, b := range os.Blocks {
+		r, ok := b.Instrs[len(b.Instrs)-1].(*ssa.Return)
+		if !ok || !fleet.Block().Dominates(b) || b == fleet.Block() && false {
+			continue
+		}
+		if b == att.Block() {
+			continue
+		}
+		pc := octx.BlockPC(b)
+		// allowed: CreateFleet failed, or no instances were returned
+		var errAtom, emptyAtom *Formula
+		for _, at := range pc.Atoms() {
+			if at.Kind == "cmp" && at.Name == "==" {
+				if hasConstStr(at, "nil") {
+					for _, x := range at.Args {
+						if isExtractOf(x, 1, func(t *Term) bool { return t.Key() == ft.Key() }) {
+							errAtom = Not(Atom(at))
+						}
+					}
+				}
+				if hasConstStr(at, "0") {
+					for _, x := range at.Args {
+						if x.Kind == "len" && x.Args[0].Kind == "field" && x.Args[0].Name == "Instances" && x.Args[0].Args[0].Key() == fleetOut.Key() {
+							emptyAtom = Atom(at)
+						}
+					}
+				}
+			}
+			// the same test written as an ordering: ¬(0 < len(Instances)), len(Instances) < 1
+			if at.Kind == "cmp" && at.Name == "<" && len(at.Args) == 2 {
+				isLen := func(x *Term) bool {
+					return x.Kind == "len" && x.Args[0].Kind == "field" && x.Args[0].Name == "Instances" && x.Args[0].Args[0].Key() == fleetOut.Key()
+				}
+				if k, ok := at.Args[0].isConstInt(); ok && k == 0 && isLen(at.Args[1]) {
+					emptyAtom = Not(Atom(at))
+				}
+				if k, ok := at.Args[1].isConstInt(); ok && k == 1 && isLen(at.Args[0]) {
+					emptyAtom = Atom(at)
+				}
+			}
+		}
+		allowed := FFalse
+		if errAtom != nil {
+			allowed = Or(allowed, errAtom)
+		}
+		if emptyAtom != nil {
+			allowed = Or(allowed, emptyAtom)
+		}
+		ck.entails(rule, fmt.Sprintf("%s/return@block%d", funcID(os), b.Index), r, pc, allowed, "after CreateFleet the strategy returns without attaching only if the call failed or returned no instances")
+	}
+}
+
 // attachStepTail: the rules of C18 beyond the attach step itself (R3 nothing dropped, R4 terminate
 // chunking, R5 error chain, R6, R7); fn is the function the fleet strategy calls with the terminate
 // function.
@@ -1195,58 +1280,7 @@ func (ck *Check) attachStepTail(fn *ssa.Function) {
 		if fleet == nil || len(att) != 1 {
 			ck.fail("C18.R3", funcID(os)+"/shape", "", funcID(os), "one CreateFleet and one attach call", "", "")
 		} else {
-			ft := octx.Term(fleet)
-			fleetOut := &Term{Kind: "extract", Name: "0", Args: []*Term{ft}}
-			for _, b := range os.Blocks {
-				r, ok := b.Instrs[len(b.Instrs)-1].(*ssa.Return)
-				if !ok || !fleet.Block().Dominates(b) || b == fleet.Block() && false {
-					continue
-				}
-				if b == att[0].Block() {
-					continue
-				}
-				pc := octx.BlockPC(b)
-				// allowed: CreateFleet failed, or no instances were returned
-				var errAtom, emptyAtom *Formula
-				for _, at := range pc.Atoms() {
-					if at.Kind == "cmp" && at.Name == "==" {
-						if hasConstStr(at, "nil") {
-							for _, x := range at.Args {
-								if isExtractOf(x, 1, func(t *Term) bool { return t.Key() == ft.Key() }) {
-									errAtom = Not(Atom(at))
-								}
-							}
-						}
-						if hasConstStr(at, "0") {
-							for _, x := range at.Args {
-								if x.Kind == "len" && x.Args[0].Kind == "field" && x.Args[0].Name == "Instances" && x.Args[0].Args[0].Key() == fleetOut.Key() {
-									emptyAtom = Atom(at)
-								}
-							}
-						}
-					}
-					// the same test written as an ordering: ¬(0 < len(Instances)), len(Instances) < 1
-					if at.Kind == "cmp" && at.Name == "<" && len(at.Args) == 2 {
-						isLen := func(x *Term) bool {
-							return x.Kind == "len" && x.Args[0].Kind == "field" && x.Args[0].Name == "Instances" && x.Args[0].Args[0].Key() == fleetOut.Key()
-						}
-						if k, ok := at.Args[0].isConstInt(); ok && k == 0 && isLen(at.Args[1]) {
-							emptyAtom = Not(Atom(at))
-						}
-						if k, ok := at.Args[1].isConstInt(); ok && k == 1 && isLen(at.Args[0]) {
-							emptyAtom = Atom(at)
-						}
-					}
-				}
-				allowed := FFalse
-				if errAtom != nil {
-					allowed = Or(allowed, errAtom)
-				}
-				if emptyAtom != nil {
-					allowed = Or(allowed, emptyAtom)
-				}
-				ck.entails("C18.R3", fmt.Sprintf("%s/return@block%d", funcID(os), b.Index), r, pc, allowed, "after CreateFleet the strategy returns without attaching only if the call failed or returned no instances")
-			}
+			ck.nothingDropped("C18.R3", os, octx, fleet, att[0])
 			// production caller injects terminateOrphanedInstances
 			var inj ssa.Value
 			for _, av := range att[0].Common().Args {
@@ -1268,51 +1302,110 @@ func (ck *Check) attachStepTail(fn *ssa.Function) {
 	for _, ci := range callsTo(a.AwsIncrease, a.AwsOneShot) {
 		ck.returnsCallUnchanged("C18.R5", a.AwsIncrease, ci.(*ssa.Call), 0)
 	}
-	{
-		cs := a.CloudStep
-		cctx := ck.P.NewCtx(cs)
-		for _, s := range a.A {
-			if s.Class != "A-CLOUD-INC" || s.Fn != cs {
-				continue
+	// … in every frame of the cloud step: the frame holding IncreaseSize, then each caller up to
+	// what ScaleUp calls, with the helper's call as the outcome
+	for i := len(a.CloudStepChain) - 1; i >= 0; i-- {
+		cs := a.CloudStepChain[i]
+		if i == len(a.CloudStepChain)-1 {
+			for _, s := range a.A {
+				if s.Class == "A-CLOUD-INC" && s.Fn == cs {
+					ck.outcomeReported("C18.R5", cs, s.Call.(*ssa.Call), "IncreaseSize")
+				}
 			}
-			call := s.Call.(*ssa.Call)
-			ct := cctx.Term(call)
-			var errNil *Formula
-			for _, b := range cs.Blocks {
-				for _, at := range cctx.BlockPC(b).Atoms() {
-					if at.Kind == "cmp" && at.Name == "==" && hasConstStr(at, "nil") {
-						for _, x := range at.Args {
-							if x.Key() == ct.Key() {
-								errNil = Atom(at)
-							}
-						}
+			continue
+		}
+		for _, ci := range callsTo(cs, a.CloudStepChain[i+1]) {
+			if call, ok := ci.(*ssa.Call); ok {
+				ck.outcomeReported("C18.R5", cs, call, a.CloudStepChain[i+1].Name())
+			}
+		}
+	}
+}
+
+// reachesBlock: b is reachable from a (a itself included) along CFG edges.
+func reachesBlock(a, b *ssa.BasicBlock) bool {
+	seen := map[*ssa.BasicBlock]bool{}
+	var walk func(x *ssa.BasicBlock) bool
+	walk = func(x *ssa.BasicBlock) bool {
+		if x == b {
+			return true
+		}
+		if seen[x] {
+			return false
+		}
+		seen[x] = true
+		for _, s := range x.Succs {
+			if walk(s) {
+				return true
+			}
+		}
+		return false
+	}
+	return walk(a)
+}
+
+// outcomeReported: frame cs reports the outcome of call (IncreaseSize, or the helper around it) as
+// its error result: a nil error after the call only if the call's error was nil — or the call's
+// error handed on as it is.
+func (ck *Check) outcomeReported(rule string, cs *ssa.Function, call *ssa.Call, what string) {
+	cctx := ck.P.NewCtx(cs)
+	ct := cctx.Term(call)
+	if call.Type() != nil {
+		if tup, ok := call.Type().(*types.Tuple); ok {
+			ct = &Term{Kind: "extract", Name: fmt.Sprint(tup.Len() - 1), Args: []*Term{ct}}
+		}
+	}
+	var errNil *Formula
+	for _, b := range cs.Blocks {
+		for _, at := range cctx.BlockPC(b).Atoms() {
+			if at.Kind == "cmp" && at.Name == "==" && hasConstStr(at, "nil") {
+				for _, x := range at.Args {
+					if x.Key() == ct.Key() {
+						errNil = Atom(at)
 					}
 				}
 			}
-			if errNil == nil {
-				ck.fail("C18.R5", ck.P.siteKey(call)+"/error-tested", ck.P.instrPos(call), funcID(cs), "the cloud step tests IncreaseSize's error", "not tested", "a failed increase is reported as success and the lock is armed")
-				continue
-			}
-			for _, b := range cs.Blocks {
-				r, ok := b.Instrs[len(b.Instrs)-1].(*ssa.Return)
-				if !ok {
-					continue
+		}
+	}
+	handedOn := func(r *ssa.Return) bool {
+		return len(r.Results) > 0 && cctx.Term(r.Results[len(r.Results)-1]).Key() == ct.Key()
+	}
+	if errNil == nil {
+		// never tested: then every return after the call hands the error on
+		all, n := true, 0
+		for _, b := range cs.Blocks {
+			if r, ok := b.Instrs[len(b.Instrs)-1].(*ssa.Return); ok {
+				if sat, _ := Satisfiable(And(cctx.BlockPC(b), cctx.PC(call))); sat && (call.Block().Dominates(b) || reachesBlock(call.Block(), b)) {
+					n++
+					all = all && handedOn(r)
 				}
-				if len(r.Results) == 0 || !isErrorType(r.Results[len(r.Results)-1].Type()) {
-					ck.fail("C18.R5", fmt.Sprintf("%s/return@block%d", funcID(cs), b.Index), ck.P.instrPos(r), funcID(cs), "the cloud step reports the outcome of IncreaseSize as an error result", "no error result", "a failed increase cannot be told from an accepted one")
-					continue
-				}
-				et := cctx.Term(r.Results[len(r.Results)-1])
-				if !(et.Kind == "const" && et.Name == "nil") {
-					continue
-				}
-				pre := And(cctx.BlockPC(b), cctx.PC(call))
-				if sat, _ := Satisfiable(pre); !sat {
-					continue
-				}
-				ck.entails("C18.R5", fmt.Sprintf("%s/return@block%d", funcID(cs), b.Index), r, pre, errNil, "the cloud step returns a nil error after calling IncreaseSize only if IncreaseSize returned nil")
 			}
 		}
+		if !(all && n > 0) {
+			ck.fail(rule, ck.P.siteKey(call)+"/error-tested", ck.P.instrPos(call), funcID(cs), "the cloud step tests "+what+"'s error (or returns it as it is)", "not tested", "a failed increase is reported as success and the lock is armed")
+		} else {
+			ck.ok(rule, ck.P.siteKey(call)+"/error-tested", ck.P.instrPos(call), funcID(cs), "the cloud step tests "+what+"'s error (or returns it as it is)", "returned unchanged")
+		}
+		return
+	}
+	for _, b := range cs.Blocks {
+		r, ok := b.Instrs[len(b.Instrs)-1].(*ssa.Return)
+		if !ok {
+			continue
+		}
+		if len(r.Results) == 0 || !isErrorType(r.Results[len(r.Results)-1].Type()) {
+			ck.fail(rule, fmt.Sprintf("%s/return@block%d", funcID(cs), b.Index), ck.P.instrPos(r), funcID(cs), "the cloud step reports the outcome of "+what+" as an error result", "no error result", "a failed increase cannot be told from an accepted one")
+			continue
+		}
+		et := cctx.Term(r.Results[len(r.Results)-1])
+		if !(et.Kind == "const" && et.Name == "nil") {
+			continue
+		}
+		pre := And(cctx.BlockPC(b), cctx.PC(call))
+		if sat, _ := Satisfiable(pre); !sat {
+			continue
+		}
+		ck.entails(rule, fmt.Sprintf("%s/return@block%d", funcID(cs), b.Index), r, pre, errNil, "the cloud step returns a nil error after calling "+what+" only if "+what+" returned nil")
 	}
 }
 
@@ -1354,6 +1447,23 @@ func (ck *Check) terminateChunking(rule string) {
 		return
 	}
 	key := ck.P.siteKey(call)
+	// idiom E, library chunking: for batch := range slices.Chunk(ids, k) { … } — the loop body is
+	// go/ssa's yield closure, the batch its parameter
+	if y := call.Parent(); isYieldOf(y, fn) {
+		list, k, ok := chunkIterOf(fn, y)
+		_, isParam := list.(*ssa.Parameter)
+		ck.cond(ok && isParam && len(y.Params) == 1, rule, key+"/batch", ck.P.instrPos(call), funcID(fn), "batch = ids[i : min(i+k, len(ids))]", "range over slices.Chunk", "the batch bounds do not partition the id list")
+		if !(ok && isParam && len(y.Params) == 1) {
+			return
+		}
+		ck.cond(k >= 1 && k <= 1000, rule, key+"/chunk-size", ck.P.instrPos(call), funcID(fn), "step k ≤ 1000 (TerminateInstances limit)", fmt.Sprint(k), "")
+		yc := es.Ctx
+		if es.Wrapper != nil {
+			yc = ck.yieldCtx(ctx, y)
+		}
+		ck.batchIDs(rule, key, fn, es, call, y.Params[0], nil, y, yc)
+		return
+	}
 	outer := innermostLoop(fn, call.Block())
 	if outer == nil {
 		ck.fail(rule, key+"/loop", ck.P.instrPos(call), funcID(fn), "TerminateInstances sits in an index-stepping loop over the id list", "no loop", "more than 1000 ids can be sent in one call")
@@ -1514,16 +1624,26 @@ func (ck *Check) terminateChunking(rule string) {
 		okBatch = true
 	}
 	ck.cond(okBatch, rule, key+"/batch", ck.P.instrPos(call), funcID(fn), "batch = ids[i : min(i+k, len(ids))]", fmt.Sprint(batch), "the batch bounds do not partition the id list")
-	// the ids sent: StringSlice(x) with x holding exactly the ids of the current batch: collected by
-	// one append per element, or written index by index into a make of the batch's length — in the
-	// loop body itself, or in the thin wrapper that is handed the batch
-	idsFn, ictx := fn, ctx
 	var B ssa.Value
 	if batch != nil {
 		B = batch
 	} else if peelBatch != nil {
 		B = peelBatch
 	}
+	if windowIDs {
+		ck.ok(rule, key+"/ids", ck.P.instrPos(call), funcID(fn), "each TerminateInstances call carries exactly the ids of the current batch (≤ k)", "index window")
+		return
+	}
+	ck.batchIDs(rule, key, fn, es, call, B, outer, fn, ctx)
+}
+
+// batchIDs: the ids sent are StringSlice(x) with x holding exactly the ids of the current batch B —
+// collected by one append per element, or written index by index into a make of the batch's
+// length — in the loop body itself (bodyFn, read in bodyCtx; outer is its loop, nil for the body
+// of a range-over-func loop) or in the thin wrapper that is handed the batch.
+func (ck *Check) batchIDs(rule, key string, fn *ssa.Function, es effSite, call *ssa.Call, B ssa.Value, outer *Loop, bodyFn *ssa.Function, bodyCtx *Ctx) {
+	inLoop := func(b *ssa.BasicBlock) bool { return outer == nil || outer.Blocks[b] }
+	idsFn, ictx := bodyFn, bodyCtx
 	if es.Wrapper != nil {
 		handed := B
 		idsFn, ictx, B = es.Wrapper, es.Ctx, nil
@@ -1537,16 +1657,14 @@ func (ck *Check) terminateChunking(rule string) {
 	ids := flds["InstanceIds"]
 	okIDs := false
 	why := "InstanceIds is not StringSlice(<ids collected from the current batch>)"
-	if windowIDs {
-		okIDs = true
-	} else if B == nil {
+	if B == nil {
 		why = "the wrapper around TerminateInstances is not handed the current batch"
 	} else if isAwsHelper(ids, "StringSlice") {
 		accV := ids.Args[0].Val
 		switch x := accV.(type) {
 		case *ssa.Phi:
 			acc := accumulatorOf(x)
-			if acc != nil && len(acc.Other) == 0 && (es.Wrapper != nil || (acc.Loop != outer && outer.Blocks[acc.Loop.Header])) {
+			if acc != nil && len(acc.Other) == 0 && (es.Wrapper != nil || (outer == nil || (acc.Loop != outer && outer.Blocks[acc.Loop.Header]))) {
 				// inner loop ranges over the batch, full traversal, one append per element
 				full := acc.Loop.FullTraversal() && acc.Loop.Over == B && len(acc.Appends) == 1 && len(acc.Appends[0].Elems) == 1
 				// F3: the accumulator must start empty in every outer iteration
@@ -1555,7 +1673,7 @@ func (ck *Check) terminateChunking(rule string) {
 				case *ssa.Const:
 					fresh = iv.Value == nil
 				case *ssa.MakeSlice:
-					fresh = makeSliceEmpty(iv) && (es.Wrapper != nil || outer.Blocks[iv.Block()])
+					fresh = makeSliceEmpty(iv) && (es.Wrapper != nil || inLoop(iv.Block()))
 				}
 				switch {
 				case !full:
@@ -1570,7 +1688,7 @@ func (ck *Check) terminateChunking(rule string) {
 			// ids := make([]string, len(batch)); for i := range batch { ids[i] = *batch[i] }
 			lc, isLen := isBuiltinCall(x.Len, "len")
 			sized := isLen && lc.Common().Args[0] == B && (x.Cap == x.Len)
-			fresh := es.Wrapper != nil || outer.Blocks[x.Block()]
+			fresh := es.Wrapper != nil || inLoop(x.Block())
 			stores, good := 0, 0
 			for _, r := range *x.Referrers() {
 				ia, ok := r.(*ssa.IndexAddr)
@@ -1808,7 +1926,7 @@ func checkC19(ck *Check) {
 	ck.belongsShape("C19.R4")
 	// R5 cloud first, k8s only on success
 	{
-		td := a.TryDelete
+		td := a.TryDeleteInner
 		tctx := ck.P.NewCtx(td)
 		var cloud *ssa.Call
 		var k8sDels []*ssa.Call
@@ -1844,6 +1962,17 @@ func checkC19(ck *Check) {
 				ck.entails("C19.R5", ck.P.siteKey(k8sDel)+"/after-cloud", k8sDel, tctx.PC(k8sDel), And(tctx.PC(cloud), errNil), "PC(Kubernetes delete) ⇒ the cloud delete ran and returned nil")
 			}
 			ck.cond(dominatesInstr(cloud, k8sDel), "C19.R5", ck.P.siteKey(k8sDel)+"/order", ck.P.instrPos(k8sDel), funcID(td), "the cloud delete precedes the Kubernetes delete", "", "")
+			// the batch deleted from Kubernetes is the batch the cloud accepted
+			sliceArg := func(c *ssa.Call) *Term {
+				for _, av := range c.Common().Args {
+					if _, ok := av.Type().(*types.Slice); ok {
+						return tctx.Term(av)
+					}
+				}
+				return nil
+			}
+			ca, ka := sliceArg(cloud), sliceArg(k8sDel)
+			ck.cond(ca != nil && ka != nil && ca.Key() == ka.Key(), "C19.R5", ck.P.siteKey(k8sDel)+"/same-batch", ck.P.instrPos(k8sDel), funcID(td), "the Kubernetes delete is handed the very list the cloud delete was", fmt.Sprintf("cloud: %v; kubernetes: %v", ca, ka), "Node objects are deleted whose termination the cloud was never asked for (or the reverse)")
 		}
 	}
 	// R1 (continued): the pre-checks read a desired capacity that is fresh within the scan
@@ -1958,7 +2087,7 @@ func (ck *Check) notInGroupPropagation(rule string) {
 			canReturnNG[fn] = true
 		}
 	}
-	frames := []*ssa.Function{a.TryDelete, a.GraceReaper, a.ForceReaper, a.ScaleDown, a.Scan, a.RunOnce, a.RunForever}
+	frames := append(append([]*ssa.Function{}, a.TryDeleteChain...), a.GraceReaper, a.ForceReaper, a.ScaleDown, a.Scan, a.RunOnce, a.RunForever)
 	total := 0
 	for _, fr := range frames {
 		if fr == nil {
@@ -2183,6 +2312,12 @@ func (ck *Check) fatalErrorCreation(rule string) {
 				}
 				n++
 				_, fresh := mi.X.(*ssa.Alloc)
+				if !fresh {
+					// a constructor that hands out a fresh value on every path
+					if c, isCall := mi.X.(*ssa.Call); isCall && c.Common().StaticCallee() != nil && ck.P.inRepo(c.Common().StaticCallee()) {
+						fresh = ck.alwaysNonNil(mi.X, 0)
+					}
+				}
 				okv := fresh && fn == a.AwsDelete
 				ck.cond(okv, rule, fmt.Sprintf("%s/not-in-group-creation#%d", funcID(fn), n), ck.P.instrPos(mi), funcID(fn), "a *NodeNotInNodeGroup error is created only by the AWS membership test, from a fresh non-nil value", mi.X.String(),
 					"a possibly-nil *NodeNotInNodeGroup is converted to an error: the interface is non-nil even when the pointer is nil, so ordinary errors are treated as the fatal not-in-group condition (or vice versa)")
@@ -2311,6 +2446,31 @@ func (ck *Check) effSites(class string, fn *ssa.Function) (sites []effSite, stra
 			sites = append(sites, effSite{Call: w.Call, Ctx: ctx, In: w.Call})
 			continue
 		}
+		// in the body of a range-over-func loop of fn (go/ssa's yield closure), directly or through a thin wrapper
+		if isYieldOf(w.Fn, fn) {
+			if yc := ck.yieldCtx(ctx, w.Fn); yc != nil {
+				sites = append(sites, effSite{Call: w.Call, Ctx: yc, In: w.Call})
+				continue
+			}
+		}
+		if c, ok := ck.A.thinWrapper(w); ok && isYieldOf(c, fn) {
+			if yc := ck.yieldCtx(ctx, c); yc != nil {
+				for _, ci := range callsTo(c, w.Fn) {
+					call, isCall := ci.(*ssa.Call)
+					if !isCall {
+						continue
+					}
+					args := make([]*Term, len(call.Common().Args))
+					for i, av := range call.Common().Args {
+						args[i] = yc.Term(av)
+					}
+					ch := yc.child(w.Fn, call, args)
+					ch.depth = 0
+					sites = append(sites, effSite{Call: ci, Ctx: ch, In: w.Call, Wrapper: w.Fn})
+				}
+				continue
+			}
+		}
 		if c, ok := ck.A.thinWrapper(w); ok && c == fn {
 			for _, ci := range callsTo(fn, w.Fn) {
 				call, isCall := ci.(*ssa.Call)
@@ -2330,6 +2490,91 @@ func (ck *Check) effSites(class string, fn *ssa.Function) (sites []effSite, stra
 		stray = append(stray, w)
 	}
 	return
+}
+
+// yieldCtx: the context of y, the body of a range-over-func loop of ctx's function: captured
+// variables the body only reads are bound to their values at the loop, the loop variables stay
+// the closure's parameters.
+func (ck *Check) yieldCtx(ctx *Ctx, y *ssa.Function) *Ctx {
+	var mc *ssa.MakeClosure
+	for _, b := range ctx.fn.Blocks {
+		for _, in := range b.Instrs {
+			if m, ok := in.(*ssa.MakeClosure); ok && m.Fn == ssa.Value(y) {
+				mc = m
+			}
+		}
+	}
+	if mc == nil {
+		return nil
+	}
+	args := make([]*Term, len(y.Params))
+	for i, prm := range y.Params {
+		args[i] = paramTerm(prm)
+	}
+	var site ssa.CallInstruction
+	if refs := mc.Referrers(); refs != nil {
+		for _, r := range *refs {
+			if ci, ok := r.(ssa.CallInstruction); ok {
+				site = ci
+			}
+		}
+	}
+	if site == nil {
+		return nil
+	}
+	ch := ctx.child(y, site, args)
+	ch.depth = 0
+	for i, fv := range y.FreeVars {
+		if i >= len(mc.Bindings) {
+			break
+		}
+		b := mc.Bindings[i]
+		if al, ok := b.(*ssa.Alloc); ok {
+			if !readOnlyFreeVar(y, fv) {
+				continue
+			}
+			ch.bind[fv] = &Term{Kind: "unop", Name: "&", Args: []*Term{{Kind: "deref", Args: []*Term{ctx.Term(al)}}}}
+			continue
+		}
+		ch.bind[fv] = ctx.Term(b)
+	}
+	return ch
+}
+
+// chunkIterOf: the body y of a range-over-func loop of fn iterates slices.Chunk(list, k): the
+// loop variable takes consecutive sub-slices of at most k elements that partition list. Returns
+// the list and k.
+func chunkIterOf(fn, y *ssa.Function) (ssa.Value, int64, bool) {
+	for _, b := range fn.Blocks {
+		for _, in := range b.Instrs {
+			c, ok := in.(*ssa.Call)
+			if !ok || len(c.Common().Args) != 1 {
+				continue
+			}
+			mc, ok := c.Common().Args[0].(*ssa.MakeClosure)
+			if !ok || mc.Fn != ssa.Value(y) {
+				continue
+			}
+			it, ok := c.Common().Value.(*ssa.Call)
+			if !ok {
+				return nil, 0, false
+			}
+			g := it.Common().StaticCallee()
+			if g == nil || pkgPathOfFn(g) != "slices" || !strings.HasPrefix(g.Name(), "Chunk") || len(it.Common().Args) != 2 {
+				return nil, 0, false
+			}
+			k, ok := it.Common().Args[1].(*ssa.Const)
+			if !ok || k.Value == nil {
+				return nil, 0, false
+			}
+			// the closure is used for nothing else
+			if refs := mc.Referrers(); refs == nil || len(*refs) != 1 {
+				return nil, 0, false
+			}
+			return it.Common().Args[0], k.Int64(), true
+		}
+	}
+	return nil, 0, false
 }
 
 // wrapperFaithful: a thin wrapper with an error result returns the write's error unchanged (so the
